@@ -559,7 +559,7 @@ where
 
 // ------------------------------------------------------------------ construction
 
-static mut SPIBUF: [u8; 1 << 16] = [0; 1 << 16];
+static mut SPIBUF: [u8; 1 << 17] = [0; 1 << 17];
 
 fn spi_buffer(n: usize) -> &'static mut [u8] {
     // one scenario at a time, single-threaded: the previous borrower is gone
